@@ -83,11 +83,23 @@ enum Outcome {
     Error(String),
 }
 
+/// multi-line text (EXPLAIN output lists labels / edge types in hash order): lines sorted
+fn text_cell(s: &str) -> String {
+    if s.contains('\n') {
+        let mut l: Vec<&str> = s.lines().collect();
+        l.sort();
+        format!("s:{}", l.join("\n"))
+    } else {
+        format!("s:{}", s)
+    }
+}
+
 fn cell_engine(v: Option<&Value>) -> String {
     match v {
+        Some(Value::Node(id, _)) | Some(Value::NodeRef(id)) => format!("node:{}", id.as_u64()),
         None | Some(Value::Null) => "null".to_string(),
         Some(Value::Property(PropertyValue::Integer(i))) => format!("i:{}", i),
-        Some(Value::Property(PropertyValue::String(s))) => format!("s:{}", s),
+        Some(Value::Property(PropertyValue::String(s))) => text_cell(s),
         Some(Value::Property(PropertyValue::Null)) => "null".to_string(),
         Some(other) => format!("other:{:?}", other),
     }
@@ -109,7 +121,13 @@ fn cell_resp(v: &RespValue) -> String {
         RespValue::Integer(i) => format!("i:{}", i),
         RespValue::BulkString(Some(b)) => {
             let s = String::from_utf8_lossy(b).to_string();
-            if s == "Null" { "null".to_string() } else { format!("s:{}", s) }
+            if s == "Null" {
+                "null".to_string()
+            } else if let Some(id) = s.strip_prefix("Node(NodeId(").and_then(|r| r.strip_suffix("))")) {
+                format!("node:{}", id)
+            } else {
+                text_cell(&s)
+            }
         }
         other => format!("other:{:?}", other),
     }
@@ -145,7 +163,10 @@ fn cell_json(v: &serde_json::Value) -> String {
     match v {
         serde_json::Value::Null => "null".to_string(),
         serde_json::Value::Number(n) => format!("i:{}", n),
-        serde_json::Value::String(s) => format!("s:{}", s),
+        serde_json::Value::String(s) => text_cell(s),
+        serde_json::Value::Object(o) if o.contains_key("labels") && o.contains_key("id") => {
+            format!("node:{}", o["id"].as_str().unwrap_or("?"))
+        }
         other => format!("other:{}", other),
     }
 }
@@ -318,7 +339,7 @@ fn gen_statement(r: &mut Rng) -> (String, &'static str) {
         }
         18 => {
             // does not parse / does not plan
-            let forms = ["MATCH (n SET n.x = 1", "CREATE", "MATCH (n) RETURN", "SET n.x = 1", "DELETE n", "MATCH (n) RETURN m.x", "FOO BAR", "", "MATCH (n) SET", " MATCH (n) WHERE SET "];
+            let forms = ["MATCH (n SET n.x = 1", "CREATE", "MATCH (n) RETURN", "SET n.x = 1", "DELETE n", "MATCH (n) RETURN m.x", "FOO BAR", "", "MATCH (n) SET", " MATCH (n) WHERE = SET "];
             ((*r.pick(&forms)).to_string(), "invalid")
         }
         _ => {
